@@ -176,8 +176,22 @@ package server
 //@   requires old != nil ==> old.GetSource() != nil
 //@   claims at-return
 //@   at-return requires ret0 != nil && !ret0.IsWithdraw && peer.isIBGPPeer() && !ret0.IsLocal() ==> ret0.GetSource().AS != peer.AS() || ret0.GetSource().RouteReflectorClient || peer.isRouteReflectorClient()
-//@   at-return requires ret0 != nil && !ret0.IsWithdraw && !peer.isRouteServerClient() && isASLoop(peer, ret0) ==> ret0.IsLocal() && peer.allowAsPathLoopLocal()
+// (route-server clients included: the per-client best-path filter does the same for them on the ordinary path, but
+// secondary routes and add-path candidates reach filterpath unfiltered)
+//@   at-return requires ret0 != nil && !ret0.IsWithdraw && isASLoop(peer, ret0) ==> ret0.IsLocal() && peer.allowAsPathLoopLocal()
 //@   at-return requires ret0 != nil && !ret0.IsWithdraw && peer.IsFamilyEnabled(bgp.RF_RTC_UC) && ret0.GetFamily() != bgp.RF_RTC_UC ==> peer.interestedIn(ret0)
+
+// from C09 "received routes containing the local AS beyond allow-own-as, or the local router-id as ORIGINATOR_ID ...
+// are not used": a route of the UPDATE that is rejected replaces whatever the peer had announced for that prefix
+// before, so the caller is handed its implicit withdrawal - every route of the UPDATE puts exactly one entry on
+// one of the two lists the caller gets (End-of-RIB markers on eor, everything else on paths)
+//@ func (*peer).handleUpdate
+//@   claims step at-call
+//@   loop 0 step len(paths) + len(eor) == header(len(paths) + len(eor)) + 1
+// ... "or the local cluster-id in CLUSTER_LIST": a route of an iBGP peer is only accepted after its CLUSTER_LIST
+// has been looked at (RFC 4456 8; known finding D37: the receive side never does, only filterpath on the way out
+// to RR clients)
+//@   at-call ^append(paths, path) requires isIBGPPeer ==> called(GetClusterList)
 
 // from C09: "received routes containing the local AS beyond allow-own-as ... are not used": the occurrence count runs
 // over the whole AS_PATH (it never restarts between segments), every member adds one per match with the local AS
